@@ -107,6 +107,9 @@ pub struct RunCfg {
     pub stats_each: bool,
     pub fatcopies: bool,
     pub regions: bool,
+    /// C20: every cluster an operation allocates is the first free one at or after the next-free hint, wrapping from
+    /// the last cluster to cluster 2 (needs `regions`: the decode before the operation)
+    pub placement: bool,
     pub dirty: bool,
     pub times: bool,
     pub known: Known,
@@ -145,6 +148,7 @@ impl RunCfg {
             stats_each: false,
             fatcopies: false,
             regions: false,
+            placement: false,
             dirty: false,
             times: false,
             known: Known::default(),
@@ -181,6 +185,13 @@ impl Trace {
     }
 }
 
+#[derive(Clone, Copy, Debug, PartialEq, Eq)]
+enum Hint {
+    /// Some(n): searches start at cluster n; None: at cluster 2
+    Known(Option<u32>),
+    Unknown,
+}
+
 #[derive(Clone, Debug)]
 struct MFile {
     node: Nid,
@@ -211,6 +222,8 @@ pub struct Run<'a> {
     stats_queried: bool,
     /// FS-info (free count, next free) as found at mount time
     fsinfo_at_mount: (u32, u32),
+    /// model of the library's in-memory next-free hint
+    alloc_hint: Hint,
     /// C13: the current session is read-only; any device write is judged
     pub ro_mode: bool,
     ro_fsinfo_unusable: bool,
@@ -278,6 +291,7 @@ impl<'a> Run<'a> {
             pattern_salt: 0,
             stats_queried: false,
             fsinfo_at_mount: (0, 0),
+            alloc_hint: Hint::Unknown,
             ro_mode: false,
             ro_fsinfo_unusable: false,
             crash: false,
@@ -323,6 +337,11 @@ impl<'a> Run<'a> {
         if self.geom.width == 32 {
             let (_, _, c, n, _) = self.dev.with_store(|s| refdec::fsinfo(s, &self.geom));
             self.fsinfo_at_mount = (c, n);
+            // the stored hint is used when it names a cluster of the volume (0, 1, the "unknown" value and anything
+            // past the last cluster are not hints)
+            self.alloc_hint = Hint::Known(if n >= 2 && n <= self.geom.max_cluster() { Some(n) } else { None });
+        } else {
+            self.alloc_hint = Hint::Known(None);
         }
         let dev = self.dev.handle();
         let clock = self.clock.clone();
@@ -645,6 +664,7 @@ impl<'a> Run<'a> {
         if self.crash {
             self.suspend_touched(op);
         }
+        self.lib_err = false;
         let ran = self.exec_inner(op)?;
         if self.ro_mode {
             self.check_readonly(&format!("{:?}", op))?;
@@ -2097,6 +2117,9 @@ impl<'a> Run<'a> {
                 self.model.sync_aliases(&dec);
             }
             if self.cfg.regions {
+                if self.cfg.placement {
+                    self.check_placement(op, pre_dec.as_ref(), &dec)?;
+                }
                 self.check_regions(op, pre_dec.as_ref(), &dec)?;
             }
             if let Some(l) = &self.vol.large {
@@ -2261,6 +2284,118 @@ impl<'a> Run<'a> {
         let changed = structural_change(mi, &cur, g);
         if let Some(what) = changed {
             return Err(self.viol(Aspect::Dirty, format!("after {:?}: {} but the dirty bit is clear (status byte {:#04x})", op, what, status_now)));
+        }
+        Ok(())
+    }
+
+    /// Where allocations land. The library keeps a next-free hint (FAT32: loaded from the information sector when it
+    /// names a cluster of the volume; otherwise none), starts every search for a free cluster there, wraps from the
+    /// last cluster to cluster 2, and moves the hint behind each cluster it hands out. The clusters an operation
+    /// newly owns (free before, owned after) are replayed against that rule in chain order (writes) or in whichever
+    /// order fits (operations that allocate for two objects).
+    fn check_placement(&mut self, op: &Op, pre: Option<&Decoded>, post: &Decoded) -> VResult<()> {
+        let Some(pre) = pre else {
+            self.alloc_hint = Hint::Unknown;
+            return Ok(());
+        };
+        let maxc = self.geom.max_cluster();
+        let mut new: Vec<u32> = post.owner.keys().copied().filter(|c| pre.fat.get(*c) == 0).collect();
+        new.sort();
+        if new.is_empty() && !self.lib_err {
+            return Ok(());
+        }
+        let freed = pre.owner.keys().any(|c| post.fat.get(*c) == 0);
+        if self.lib_err || freed || matches!(op, Op::WriteRetry { .. } | Op::FlushRetry { .. }) {
+            // a failed call may have allocated and released again (the hint moved, the table does not show it); a call
+            // that also releases clusters may do so before or after it allocates
+            self.alloc_hint = Hint::Unknown;
+            self.trace.hit("placement_hint_lost");
+            return Ok(());
+        }
+        let orders: Vec<Vec<u32>> = match op {
+            Op::Write { h, .. } => {
+                let k = *h as usize % NSLOTS;
+                let path = self.files[k].as_ref().map(|f| self.model.path_of(f.node));
+                let chain = path.and_then(|p| post.objects.iter().find(|o| !o.is_dir && fold_path(&o.path) == fold_path(&p)).map(|o| o.clusters.clone()));
+                match chain {
+                    Some(ch) => {
+                        let v: Vec<u32> = ch.into_iter().filter(|c| new.contains(c)).collect();
+                        if v.len() != new.len() {
+                            self.alloc_hint = Hint::Unknown;
+                            return Ok(());
+                        }
+                        vec![v]
+                    }
+                    None => {
+                        self.alloc_hint = Hint::Unknown;
+                        return Ok(());
+                    }
+                }
+            }
+            _ if new.len() == 1 => vec![new.clone()],
+            _ if new.len() == 2 => vec![vec![new[0], new[1]], vec![new[1], new[0]]],
+            _ if new.len() == 3 => {
+                let (a, b, c) = (new[0], new[1], new[2]);
+                vec![vec![a, b, c], vec![a, c, b], vec![b, a, c], vec![b, c, a], vec![c, a, b], vec![c, b, a]]
+            }
+            _ => {
+                self.alloc_hint = Hint::Unknown;
+                return Ok(());
+            }
+        };
+        let next_of = |c: u32| if c + 1 <= maxc { c + 1 } else { 2 };
+        // Ok(final hint) or Err((cluster, start, expected))
+        let simulate = |order: &[u32], start_hint: Hint| -> Result<Hint, (u32, u32, Option<u32>)> {
+            let mut h = start_hint;
+            let mut taken: Vec<u32> = Vec::new();
+            for &c in order {
+                let start = match h {
+                    Hint::Known(Some(n)) => n,
+                    Hint::Known(None) => 2,
+                    Hint::Unknown => {
+                        taken.push(c);
+                        h = Hint::Known(Some(next_of(c)));
+                        continue;
+                    }
+                };
+                let mut expected = None;
+                let mut steps = 0u64;
+                let mut i = start;
+                loop {
+                    if pre.fat.get(i) == 0 && !taken.contains(&i) {
+                        expected = Some(i);
+                        break;
+                    }
+                    i = next_of(i);
+                    steps += 1;
+                    if i == start || steps > 8_000_000 {
+                        break;
+                    }
+                }
+                if steps > 8_000_000 {
+                    return Ok(Hint::Unknown);
+                }
+                if expected != Some(c) {
+                    return Err((c, start, expected));
+                }
+                taken.push(c);
+                h = Hint::Known(Some(next_of(c)));
+            }
+            Ok(h)
+        };
+        let results: Vec<Result<Hint, (u32, u32, Option<u32>)>> = orders.iter().map(|o| simulate(o, self.alloc_hint)).collect();
+        let oks: Vec<Hint> = results.iter().filter_map(|r| r.as_ref().ok().copied()).collect();
+        if oks.is_empty() {
+            let (c, start, expected) = results[0].clone().err().unwrap();
+            return Err(self.viol(
+                Aspect::Large,
+                format!("{:?} allocated cluster {} (last cluster of the volume: {}), but a search that starts at the next-free hint {} and wraps from the last cluster to cluster 2 reaches {} first", op, c, maxc, start, expected.map_or("no free cluster at all".to_string(), |e| format!("the free cluster {}", e))),
+            ));
+        }
+        self.alloc_hint = if oks.iter().all(|h| *h == oks[0]) { oks[0] } else { Hint::Unknown };
+        self.trace.hit("placement_checked_op");
+        if new.iter().any(|c| *c == maxc) {
+            self.trace.hit("placement_last_cluster_allocated");
         }
         Ok(())
     }
